@@ -548,9 +548,9 @@ impl Scenario for Pipeline {
         // drop chunks of receptions
         let n = p.rcpts.len();
         let mut chunk = n / 2;
-        while chunk >= 1 {
+        while chunk >= 1 && out.len() * (n + 1) < 3_000_000 {
             let mut i = 0;
-            while i < n {
+            while i < n && out.len() * (n + 1) < 3_000_000 {
                 let mut q = p.clone();
                 q.rcpts.drain(i..(i + chunk).min(n));
                 out.push(q);
@@ -564,9 +564,9 @@ impl Scenario for Pipeline {
         // drop event chunks
         let n = p.events.len();
         let mut chunk = n / 2;
-        while chunk >= 1 && n > 0 {
+        while chunk >= 1 && n > 0 && out.len() * (n + 1) < 3_000_000 {
             let mut i = 0;
-            while i < n {
+            while i < n && out.len() * (n + 1) < 3_000_000 {
                 let mut q = p.clone();
                 q.events.drain(i..(i + chunk).min(n));
                 out.push(q);
